@@ -127,3 +127,8 @@ Print Assumptions C04_zsh_record_of_candidate.
 Theorem C04_zsh_lines_hold_no_break : forall v e st m, ~ In LF (zsh_display v) /\ ~ In LF (zsh_value e st m v).
 Proof. exact zsh_lines_no_break. Qed.
 Print Assumptions C04_zsh_lines_hold_no_break.
+
+Theorem C04_zsh_one_record_per_candidate : forall e m vs,
+  length (concat (map (fun g => map (zrec (fst g)) (snd g)) (zsh_groups e m vs))) = length vs.
+Proof. exact zsh_one_record_per_candidate. Qed.
+Print Assumptions C04_zsh_one_record_per_candidate.
